@@ -1,51 +1,830 @@
 package c11
 
+// c11.go: the generator and the property's own oracle.
+//
+// The oracle is the statement of C11, evaluated on the real code only:
+//
+//	leak      no stored byte string contains a received plaintext (>= 8 bytes), a plaintext ref (text,
+//	          hex or raw digest); no blob name underneath is a plaintext ref; every stored blob is
+//	          `0x02 || age v1 file` and (untampered) is named by its own digest
+//	fetch     every Fetch returns exactly the bytes received under that ref (and their size) or fails
+//	recover   after ANY prefix of the calls the encrypt layer made to the wrapped stores (a crash between
+//	          two effects, including mid-compaction), a new storage over those stores with an empty meta
+//	          index starts, maps every plain ref to the same `size/encref` as the live index did, and
+//	          serves every blob whose receive had been acknowledged by then
+
 import (
+	"bytes"
+	"encoding/hex"
 	"fmt"
-	"io"
+	"sort"
 	"strings"
+
 	"perkeep.org/pkg/blob"
+
 	"verifharness/hk"
 )
 
-func NewExec() func(w []string) string { return func([]string) string { return "bad-op" } }
+type gen struct {
+	r *hk.Run
+	e *exec
+	// per case
+	tampered  bool
+	scanned   int            // calls already leak-scanned
+	ackAt     map[string]int // ref -> number of calls made when its receive was acknowledged
+	sinceComp int            // generator heuristic: heap entries since the last compaction
+}
 
-func Run(r *hk.Run) { r.Note("not built yet") }
+func (g *gen) begin(label string) {
+	if g.e != nil {
+		g.e.close()
+	}
+	g.r.Case(label)
+	g.e = newExecState()
+	g.tampered, g.scanned, g.sinceComp = false, 0, 0
+	g.ackAt = map[string]int{}
+}
 
-// Scratch is a temporary probe.
-func Scratch() {
-	w, err := newWorld()
-	if err != nil {
-		panic(err)
+func (g *gen) op(line string) string {
+	out := g.e.do(strings.Fields(line))
+	g.r.Op(line, out)
+	if strings.HasPrefix(out, "hang") || strings.HasPrefix(out, "broken") || out == "panic" {
+		g.r.Fail("impl-"+strings.Fields(out)[0], line, "an answer", out, g.r.CaseOps())
 	}
-	put := func(s string) blob.Ref {
-		br := blob.RefFromString(s)
-		_, err := w.sto.ReceiveBlob(ctxbg, br, strings.NewReader(s))
-		if err != nil {
-			panic(err)
+	return out
+}
+
+// ---- oracle: leak ---------------------------------------------------------------------------------------
+
+var ageMagic = []byte("\x02age-encryption.org/v1\n")
+
+// needles of one plaintext blob
+func needles(ref string, data []byte) [][]byte {
+	var out [][]byte
+	if len(data) >= 8 {
+		out = append(out, data)
+	}
+	out = append(out, []byte(ref))
+	if i := strings.IndexByte(ref, '-'); i > 0 {
+		out = append(out, []byte(ref[i+1:]))
+		if raw, err := hex.DecodeString(ref[i+1:]); err == nil {
+			out = append(out, raw)
 		}
-		w.quiesce()
-		return br
 	}
-	get := func(br blob.Ref) string {
-		rc, _, err := w.sto.Fetch(ctxbg, br)
-		if err != nil {
-			return "ERR " + err.Error()
+	return out
+}
+
+// leakScan checks everything written to the wrapped stores since the last scan against every plaintext
+// known (against a sample of them when there are many).
+func (g *gen) leakScan() {
+	e := g.e
+	if e.w == nil {
+		return
+	}
+	e.w.callsMu.Lock()
+	fresh := append([]call(nil), e.w.calls[g.scanned:]...)
+	g.scanned = len(e.w.calls)
+	e.w.callsMu.Unlock()
+	if len(fresh) == 0 {
+		return
+	}
+	refs := make([]string, 0, len(e.plain))
+	for ref := range e.plain {
+		refs = append(refs, ref)
+	}
+	sort.Strings(refs)
+	if len(refs) > 400 {
+		// the most recent receives and a random sample of the others
+		recent := map[string]bool{}
+		for i := len(e.labels) - 1; i >= 0 && len(recent) < 150; i-- {
+			recent[e.labels[i]] = true
 		}
-		b, _ := io.ReadAll(rc)
-		return string(b)
+		var pick []string
+		for _, ref := range refs {
+			if recent[ref] || g.r.R.Intn(len(refs)) < 150 {
+				pick = append(pick, ref)
+			}
+		}
+		refs = pick
 	}
-	v := put("victim")
-	wr := put("other-content")
-	_ = wr
-	encW := w.blobs.names[1]
-	look := metaHeader + v.String() + "/6/" + encW + "\n"
-	put(look)
-	encL := w.blobs.names[2]
-	// replace the victim's meta blob content by the ciphertext of the lookalike
-	w.meta.m[w.meta.names[0]] = w.blobs.m[encL]
+	plainRef := map[string]bool{}
+	for ref := range e.plain {
+		plainRef[ref] = true
+	}
+	for _, c := range fresh {
+		for _, n := range c.names {
+			g.r.ImplOnly("leak-name")
+			if plainRef[n] {
+				g.r.Fail("leak-plain-ref-as-name", "store "+c.store+" was given the name "+n, "a ciphertext digest", n, g.r.CaseOps())
+			}
+		}
+		if !c.put {
+			continue
+		}
+		g.r.ImplOnly("leak-bytes")
+		if !bytes.HasPrefix(c.data, ageMagic) {
+			g.r.Fail("leak-not-age-format", "store "+c.store+" got bytes that are not 0x02||age", hex.EncodeToString(ageMagic), hex.EncodeToString(c.data[:min(len(c.data), 24)]), g.r.CaseOps())
+		}
+		if blob.RefFromBytes(c.data).String() != c.names[0] {
+			g.r.Fail("leak-name-not-digest", "store "+c.store+": blob name is not the digest of its bytes", blob.RefFromBytes(c.data).String(), c.names[0], g.r.CaseOps())
+		}
+		for _, ref := range refs {
+			for k, nd := range needles(ref, e.plain[ref]) {
+				if bytes.Contains(c.data, nd) {
+					g.r.Fail(fmt.Sprintf("leak-plaintext-%d", k), "store "+c.store+" blob "+c.names[0]+" contains plaintext material of "+ref, "absent", hex.EncodeToString(nd[:min(len(nd), 32)]), g.r.CaseOps())
+				}
+			}
+		}
+	}
+}
+
+// ---- oracle: fetch --------------------------------------------------------------------------------------
+
+// checkFetch fetches ref through sto and applies "exactly the original plaintext or fails".
+func (g *gen) checkFetch(sto interface{}, where, ref string, must bool) string {
+	e := g.e
+	var data []byte
+	var size uint32
+	var cl string
+	switch s := sto.(type) {
+	case *world:
+		if s.sto == nil {
+			return "down"
+		}
+		data, size, cl = fetchRaw(s.sto, ref)
+	}
+	g.r.ImplOnly("fetch-oracle")
+	want, known := e.plain[ref]
+	if cl == "ok" {
+		if !known || !bytes.Equal(data, want) || int(size) != len(want) {
+			g.r.Fail("fetch-wrong-plaintext@"+where, "Fetch("+ref+") returned bytes that are not the blob received under that ref",
+				fmt.Sprintf("%d bytes %s", len(want), hex.EncodeToString(want[:min(len(want), 24)])),
+				fmt.Sprintf("%d bytes (size %d) %s", len(data), size, hex.EncodeToString(data[:min(len(data), 24)])), g.r.CaseOps())
+		}
+	} else if must {
+		g.r.Fail("fetch-lost-blob@"+where, "Fetch("+ref+") of an acknowledged blob fails on untampered stores", "ok", cl, g.r.CaseOps())
+	}
+	return cl
+}
+
+// ---- oracle: recover ------------------------------------------------------------------------------------
+
+// shadow builds a second encrypt storage with an EMPTY index over copies of the given sub-store contents.
+func shadow(bm, mm map[string][]byte) (*world, error) {
+	w := &world{blobs: newRawStore("E"), meta: newRawStore("M")}
+	w.base = baseGoroutines
+	w.blobs.m, w.meta.m = copyMap(bm), copyMap(mm)
 	w.freshKV()
-	fmt.Println("restart:", w.start(nil))
-	fmt.Println("fetch victim:", get(v))
-	fmt.Println("fetch other:", get(wr))
+	err := w.start(nil)
+	return w, err
+}
+
+// recoverCheck: the index rebuilt from (bm, mm) alone agrees with the live rows, and serves mustHave.
+func (g *gen) recoverCheck(where string, bm, mm map[string][]byte, live map[string]string, mustHave []string) {
+	g.r.ImplOnly("recover-oracle")
+	w, err := shadow(bm, mm)
+	defer w.close()
+	if err != nil {
+		g.r.Fail("recover-startup-fails@"+where, "a new storage over untampered wrapped stores does not start", "ok", err.Error(), g.r.CaseOps())
+		return
+	}
+	rebuilt := map[string]string{}
+	for _, kv := range w.kv.rows() {
+		rebuilt[kv[0]] = kv[1]
+		if lv, ok := live[kv[0]]; ok && lv != kv[1] {
+			g.r.Fail("recover-different-mapping@"+where, "rebuilt index maps "+kv[0]+" elsewhere", lv, kv[1], g.r.CaseOps())
+		}
+	}
+	for _, ref := range mustHave {
+		if _, ok := rebuilt[ref]; !ok {
+			g.r.Fail("recover-row-lost@"+where, "acknowledged blob "+ref+" is not in the rebuilt index", live[ref], "absent", g.r.CaseOps())
+			continue
+		}
+		g.checkFetch(w, "recover-"+where, ref, true)
+	}
+}
+
+func (g *gen) liveRows() map[string]string {
+	m := map[string]string{}
+	for _, kv := range g.e.w.kv.rows() {
+		m[kv[0]] = kv[1]
+	}
+	return m
+}
+
+func (g *gen) ackedRefs() []string {
+	var out []string
+	for ref := range g.e.acked {
+		out = append(out, ref)
+	}
+	sort.Strings(out)
+	return out
+}
+
+// pointCheck: the oracles at the current (untampered, quiescent) point.
+func (g *gen) pointCheck(recover bool) {
+	g.leakScan()
+	if g.tampered || !g.e.up {
+		return
+	}
+	if recover {
+		live := g.liveRows()
+		acked := g.ackedRefs()
+		for _, ref := range acked {
+			if _, ok := live[ref]; !ok {
+				g.r.Fail("index-row-missing", "acknowledged blob "+ref+" has no index row", "a row", "absent", g.r.CaseOps())
+			}
+		}
+		g.recoverCheck("point", g.e.w.blobs.snapshot(), g.e.w.meta.snapshot(), live, acked)
+	}
+}
+
+// crashPrefixes replays every prefix of the call log (optionally only every step-th) as a crash state.
+func (g *gen) crashPrefixes(step int, partialRm bool) {
+	e := g.e
+	calls := append([]call(nil), e.w.calls...)
+	live := g.liveRows()
+	bm, mm := map[string][]byte{}, map[string][]byte{}
+	type ack struct {
+		ref string
+		at  int
+	}
+	var acks []ack
+	for ref, at := range g.ackAt {
+		acks = append(acks, ack{ref, at})
+	}
+	sort.Slice(acks, func(i, j int) bool { return acks[i].at < acks[j].at || (acks[i].at == acks[j].at && acks[i].ref < acks[j].ref) })
+	must := func(k int) []string {
+		var out []string
+		for _, a := range acks {
+			if a.at <= k {
+				out = append(out, a.ref)
+			}
+		}
+		return out
+	}
+	for k := 0; k <= len(calls); k++ {
+		if k > 0 {
+			c := calls[k-1]
+			m := bm
+			if c.store == "M" {
+				m = mm
+			}
+			if c.put {
+				m[c.names[0]] = c.data
+			} else {
+				if partialRm && len(c.names) > 1 {
+					// crash inside RemoveBlobs: only a prefix of the names is gone
+					for _, j := range []int{1, len(c.names) / 2, len(c.names) - 1} {
+						mp := copyMap(m)
+						for _, n := range c.names[:j] {
+							delete(mp, n)
+						}
+						g.r.Hit("crash:inside-remove")
+						g.recoverCheck("crash-inside-remove", bm, mp, live, must(k-1))
+					}
+				}
+				for _, n := range c.names {
+					delete(m, n)
+				}
+				g.r.Hit("crash:after-remove")
+			}
+			if c.put && c.store == "M" && k < len(calls) && !calls[k].put {
+				g.r.Hit("crash:between-upload-and-remove")
+			}
+		}
+		interesting := k > 0 && k < len(calls) && (!calls[k].put || !calls[k-1].put)
+		if k%step != 0 && !interesting && k != len(calls) {
+			continue
+		}
+		g.r.Distinct(fmt.Sprintf("crash-prefix:%d:%d", g.r.Res.Cases, k))
+		g.recoverCheck("crash-prefix", bm, mm, live, must(k))
+	}
+}
+
+// uploadFirst: in the calls of one op (after the first skip ones), every removal from the meta store is
+// preceded by an upload to it that no earlier removal has used up.
+func (g *gen) uploadFirst(calls string, skip int) {
+	toks := strings.Fields(calls)
+	if len(toks) < skip {
+		return
+	}
+	up := 0
+	for _, t := range toks[skip:] {
+		switch {
+		case strings.HasPrefix(t, "M+"):
+			up++
+		case strings.HasPrefix(t, "M-"):
+			g.r.Hit("order:upload-before-remove")
+			if up == 0 {
+				g.r.Fail("compaction-remove-before-upload", "small meta blobs were removed before the packed one was uploaded", "M+ before M-", calls, g.r.CaseOps())
+			}
+			up--
+		}
+	}
+}
+
+// ---- generator helpers ----------------------------------------------------------------------------------
+
+// order: a feasible arrival order of the meta blobs present: enumeration order, shuffled inside windows.
+func (g *gen) order(shuffle bool) string {
+	names := g.e.w.meta.sortedNames()
+	if len(names) == 0 {
+		return "-"
+	}
+	if shuffle {
+		for i := 0; i < len(names); i += 5 {
+			j := min(i+5, len(names))
+			for k := j - 1; k > i; k-- {
+				x := i + g.r.R.Intn(k-i+1)
+				names[k], names[x] = names[x], names[k]
+			}
+		}
+	}
+	toks := make([]string, len(names))
+	for i, n := range names {
+		toks[i] = g.e.w.meta.Tok(n)
+	}
+	return strings.Join(toks, ",")
+}
+
+func (g *gen) restart(mode string, shuffle bool) string {
+	out := g.op("restart " + mode + " " + g.order(shuffle))
+	g.r.Hit("restart:" + mode + ":" + out)
+	if out == "ok" {
+		g.sinceComp = len(g.e.w.meta.m)
+	}
+	return out
+}
+
+func (g *gen) recv(kind string, data []byte) string {
+	line := kind + " " + hk.Hex(data)
+	out := g.op(line)
+	ref := blob.RefFromBytes(data).String()
+	if strings.HasPrefix(out, "ok") {
+		if _, ok := g.ackAt[ref]; !ok {
+			g.ackAt[ref] = len(g.e.w.calls)
+		}
+	}
+	return out
+}
+
+func (g *gen) freshData(n int) []byte {
+	for {
+		b := g.r.R.Bytes(n)
+		if _, dup := g.e.plain[blob.RefFromBytes(b).String()]; !dup {
+			return b
+		}
+		if n < 4 {
+			n++
+		}
+	}
+}
+
+func (g *gen) blobSize() int {
+	switch g.r.R.Intn(12) {
+	case 0:
+		return 0
+	case 1:
+		return 1
+	case 2:
+		return 8 + g.r.R.Intn(4)
+	case 3:
+		return 65536 - 1 + g.r.R.Intn(3) // around age's 64 KiB chunk
+	case 4:
+		return 200 + g.r.R.Intn(2000)
+	}
+	return 12 + g.r.R.Intn(60)
+}
+
+func (g *gen) fetchAll(where string) {
+	for i, ref := range g.e.labels {
+		if i > 40 {
+			break
+		}
+		g.op(fmt.Sprintf("fetch @%d", i+1))
+		g.checkFetch(g.e.w, where, ref, !g.tampered && g.e.acked[ref])
+	}
+}
+
+// ---- families -------------------------------------------------------------------------------------------
+
+// small random histories with restarts at random points
+func (g *gen) smallHistories(n int) {
+	for c := 0; c < n; c++ {
+		g.begin("small")
+		var shape []string
+		steps := 3 + g.r.R.Intn(10)
+		for i := 0; i < steps; i++ {
+			k := g.r.R.Intn(14)
+			switch {
+			case k < 5 || len(g.e.labels) == 0:
+				g.recv("recv", g.freshData(g.blobSize()))
+				shape = append(shape, "r")
+			case k == 5: // duplicate
+				ref := g.e.labels[g.r.R.Intn(len(g.e.labels))]
+				g.recv("recv", g.e.plain[ref])
+				g.r.Hit("recv:duplicate")
+				shape = append(shape, "d")
+			case k == 6: // wrong ref
+				d := g.freshData(10 + g.r.R.Intn(20))
+				other := blob.RefFromBytes(append([]byte("x"), d...)).String()
+				out := g.op("recvas " + hk.Hex([]byte(other)) + " " + hk.Hex(d))
+				g.r.Hit("recvas:" + out)
+				shape = append(shape, "w")
+			case k == 7:
+				g.restart([]string{"keep", "wipe"}[g.r.R.Intn(2)], g.r.R.Bool())
+				shape = append(shape, "R")
+			case k == 8:
+				after := "-"
+				if g.r.R.Bool() {
+					after = fmt.Sprintf("@%d", 1+g.r.R.Intn(len(g.e.labels)))
+				} else if g.r.R.Bool() {
+					after = hk.Hex([]byte("sha224-" + hex.EncodeToString(g.r.R.Bytes(1))))
+				}
+				g.op(fmt.Sprintf("enum %s %d", after, g.r.R.Intn(4)))
+				shape = append(shape, "e")
+			case k == 9:
+				missing := blob.RefFromBytes(g.r.R.Bytes(9)).String()
+				g.op("stat " + hk.Hex([]byte(missing)))
+				g.op("fetch " + hk.Hex([]byte(missing)))
+				shape = append(shape, "m")
+			default:
+				i := g.r.R.Intn(len(g.e.labels))
+				g.op(fmt.Sprintf("stat @%d", i+1))
+				g.op(fmt.Sprintf("fetch @%d", i+1))
+				g.checkFetch(g.e.w, "live", g.e.labels[i], g.e.acked[g.e.labels[i]])
+				shape = append(shape, "f")
+			}
+			g.op("dump")
+			g.pointCheck(true)
+		}
+		g.op("calls")
+		g.op("enum - 0")
+		g.fetchAll("live")
+		g.crashPrefixes(1, true)
+		g.r.Distinct("small:" + strings.Join(shape, ""))
+		if c < 2 {
+			g.r.Sample(map[string]any{"family": "small", "ops": g.r.CaseOps()[:min(len(g.r.CaseOps()), 12)]})
+		}
+	}
+}
+
+// a history long enough for compaction (SmallMetaCountLimit receives and more), restarts in between
+func (g *gen) compaction(n int, everyPoint bool, label string) {
+	g.begin(label)
+	lateNext := 100 + g.r.R.Intn(2)*101 // one receive that loses the race against the packer
+	forceRestart := 150
+	for i := 1; i <= n; i++ {
+		kind := "recv"
+		if g.sinceComp == 100 && i >= lateNext {
+			kind = "recvlate"
+			lateNext = 1 << 30
+			g.r.Hit("recvlate:at-threshold")
+		}
+		g.recv(kind, g.freshData(12+g.r.R.Intn(30)))
+		g.sinceComp++
+		calls := g.op("calls")
+		g.uploadFirst(calls, 2)
+		if strings.Contains(calls, "M-") {
+			g.r.Hit("compaction:during-receive")
+			g.sinceComp = 1
+		} else if kind == "recvlate" {
+			g.sinceComp = 0
+			g.r.Hit("compaction:aborted-by-race")
+		}
+		g.op("sum")
+		if i%25 == 0 || i == n {
+			g.op("dump")
+		}
+		if everyPoint || i%10 == 0 {
+			g.pointCheck(true)
+		} else {
+			g.leakScan()
+		}
+		if kind == "recvlate" {
+			forceRestart = i + 30 + g.r.R.Intn(40)
+		}
+		if (g.r.R.Intn(40) == 0 || i == forceRestart) && len(g.e.w.meta.m) <= 200 {
+			// (with more than 200 meta blobs the scan starts several packers at once, whose relative
+			// order the harness cannot pin down; the theorems cover those schedules)
+			before := len(g.e.w.meta.m)
+			g.restart([]string{"keep", "wipe"}[g.r.R.Intn(2)], true)
+			calls := g.op("calls")
+			g.uploadFirst(calls, 0)
+			if strings.Contains(calls, "M-") {
+				g.r.Hit("compaction:at-startup")
+				g.r.Distinct(fmt.Sprintf("compaction:at-startup(meta=%d)", before))
+			}
+			g.op("sum")
+			g.pointCheck(true)
+			i2 := 1 + g.r.R.Intn(len(g.e.labels))
+			g.op(fmt.Sprintf("fetch @%d", i2))
+			g.checkFetch(g.e.w, "live", g.e.labels[i2-1], true)
+		}
+	}
+	g.fetchAll("live")
+	for i := 0; i < 30; i++ {
+		j := g.r.R.Intn(len(g.e.labels))
+		g.op(fmt.Sprintf("fetch @%d", j+1))
+		g.checkFetch(g.e.w, "live", g.e.labels[j], true)
+	}
+	g.op("enum - 5")
+	g.r.Distinct(fmt.Sprintf("%s:%d", label, n))
+}
+
+// the lookalike attack (finding F-C11-1) and its variations
+func (g *gen) lookalikes() {
+	hdr := hk.Hex([]byte(metaHeader))
+	sl, nl := "2f", "0a"
+	type variant struct {
+		name  string
+		build func() // after: recv V (@1), recv W (@2)
+	}
+	v := []byte("the victim's blob")
+	w := []byte("another blob, longer than the victim")
+	base := func() {
+		g.recv("recv", v)
+		g.recv("recv", w)
+	}
+	finish := func(name string) {
+		g.tampered = true
+		out := g.restart("wipe", false)
+		g.op("dump")
+		for i := range g.e.labels {
+			g.op(fmt.Sprintf("stat @%d", i+1))
+			g.op(fmt.Sprintf("fetch @%d", i+1))
+			g.checkFetch(g.e.w, "lookalike", g.e.labels[i], false)
+		}
+		g.op("enum - 0")
+		g.r.Distinct("lookalike:" + name + ":" + out)
+		g.r.Hit("lookalike:" + name + ":" + out)
+		g.leakScan()
+	}
+	size := func(n int) string { return hk.Hex([]byte(fmt.Sprint(n))) }
+
+	// the witness: the victim's meta blob is replaced by the stored ciphertext of a data blob that reads
+	// `header, victim/size/ciphertext-of-W`
+	g.begin("lookalike-witness")
+	base()
+	g.op(strings.Join([]string{"recv", hdr, "@1", sl, size(len(v)), sl, "E2", nl}, " "))
+	g.op("copy M1 E3")
+	g.tampered = true
+	g.restart("wipe", false)
+	g.op("dump")
+	out := g.op("fetch @1")
+	cl := g.checkFetch(g.e.w, "lookalike", g.e.labels[0], false)
+	g.r.Probe("F-C11-1", strings.HasPrefix(out, "ok @2"),
+		"recv V; recv W; recv `#camlistore/encmeta=2\\nV/size/enc(W)\\n`; meta blob of V := ciphertext of that blob; restart with empty index; Fetch(V) answered "+out+" ("+cl+")")
+	g.r.Sample(map[string]any{"family": "lookalike-witness", "ops": g.r.CaseOps()})
+	finish("witness")
+
+	variants := []variant{
+		{"planted-next-to-legit", func() {
+			g.op(strings.Join([]string{"recv", hdr, "@1", sl, size(len(v)), sl, "E2", nl}, " "))
+			g.op("plant M E3")
+		}},
+		{"wrong-size", func() {
+			g.op(strings.Join([]string{"recv", hdr, "@1", sl, size(len(v) + 1), sl, "E1", nl}, " "))
+			g.op("copy M1 E3")
+		}},
+		{"points-nowhere", func() {
+			ghost := blob.RefFromBytes([]byte("no such ciphertext")).String()
+			g.op(strings.Join([]string{"recv", hdr, "@1", sl, size(len(v)), sl, hk.Hex([]byte(ghost)), nl}, " "))
+			g.op("copy M1 E3")
+		}},
+		{"two-fields", func() {
+			g.op(strings.Join([]string{"recv", hdr, "@1", sl, "E2", nl}, " "))
+			g.op("copy M1 E3")
+		}},
+		{"unknown-hash", func() {
+			g.op(strings.Join([]string{"recv", hdr, hk.Hex([]byte("foo-0123abcd")), sl, size(3), sl, "E2", nl}, " "))
+			g.op("copy M1 E3")
+		}},
+		{"no-final-newline", func() {
+			g.op(strings.Join([]string{"recv", hdr, "@1", sl, size(len(v)), sl, "E2"}, " "))
+			g.op("copy M1 E3")
+		}},
+		{"header-only", func() {
+			g.op("recv " + hdr)
+			g.op("copy M1 E3")
+		}},
+		{"no-newline-at-all", func() {
+			g.op("recv " + hk.Hex([]byte(strings.TrimSuffix(metaHeader, "\n"))))
+			g.op("copy M1 E3")
+		}},
+		{"bad-value", func() {
+			g.op(strings.Join([]string{"recv", hdr, "@1", sl, hk.Hex([]byte("abc")), sl, hk.Hex([]byte("def")), nl}, " "))
+			g.op("copy M1 E3")
+		}},
+		{"two-lines-swap-both", func() {
+			g.op(strings.Join([]string{"recv", hdr, "@1", sl, size(len(w)), sl, "E2", nl, "@2", sl, size(len(v)), sl, "E1", nl}, " "))
+			g.op("copy M1 E3")
+			g.op("copy M2 E3")
+		}},
+		{"data-blob-as-meta", func() {
+			g.op("copy M1 E2")
+		}},
+		{"meta-as-data-blob", func() {
+			g.op("copy E1 M1")
+		}},
+	}
+	for _, vr := range variants {
+		g.begin("lookalike-" + vr.name)
+		base()
+		vr.build()
+		finish(vr.name)
+		if vr.name == "bad-value" {
+			// a receive of the victim again repairs its row (fetchMeta errs, so it is not a duplicate)
+			g.op("recv " + hk.Hex(v))
+			g.op("dump")
+			g.op("fetch @1")
+			g.checkFetch(g.e.w, "lookalike", g.e.labels[0], false)
+		}
+	}
+}
+
+// every single-byte flip, truncation, extension and blob-for-blob substitution of small stored blobs
+func (g *gen) tamperMatrix(masks []int, stride int) {
+	g.begin("tamper-matrix")
+	sizes := []int{0, 9, 40}
+	for _, n := range sizes {
+		g.recv("recv", g.freshData(n))
+	}
+	g.op("dump")
+	g.pointCheck(true)
+	g.op("snap")
+	g.tampered = true
+	toks := []string{"E1", "E2", "E3", "M1", "M2", "M3"}
+	length := func(tok string) int {
+		l, _ := g.e.parseLoc(tok)
+		c, _ := l.get()
+		return len(c)
+	}
+	verdict := func(tok, kind string, v int) {
+		isMeta := tok[0] == 'M'
+		if isMeta {
+			out := g.restart("wipe", false)
+			g.r.Hit("tamper:meta:" + kind + ":restart-" + out)
+			if out == "ok" {
+				for i, ref := range g.e.labels {
+					g.op(fmt.Sprintf("fetch @%d", i+1))
+					g.checkFetch(g.e.w, "tamper-meta-"+kind, ref, false)
+				}
+			}
+		} else {
+			i := int(tok[1] - '0')
+			out := g.op(fmt.Sprintf("fetch @%d", i))
+			cl := g.checkFetch(g.e.w, "tamper-blob-"+kind, g.e.labels[i-1], false)
+			g.r.Hit("tamper:blob:" + kind + ":fetch-" + cl)
+			if cl == "ok" {
+				g.r.Fail("tamper-undetected:"+kind, "a modified ciphertext blob was served", "corrupt", out, g.r.CaseOps())
+			}
+			if v%16 == 0 {
+				// a restart does not help
+				g.restart("wipe", false)
+				g.op(fmt.Sprintf("fetch @%d", i))
+				g.checkFetch(g.e.w, "tamper-blob-"+kind, g.e.labels[i-1], false)
+			}
+		}
+		g.op("restore")
+		g.r.Distinct(fmt.Sprintf("tamper:%s:%s:%d", tok, kind, v))
+	}
+	for _, tok := range toks {
+		n := length(tok)
+		for pos := 0; pos < n; pos += stride {
+			for _, m := range masks {
+				g.op(fmt.Sprintf("garble %s flip %d", tok, pos*256+m))
+				verdict(tok, "flip", pos)
+			}
+		}
+		for l := 0; l < n; l += stride {
+			g.op(fmt.Sprintf("garble %s trunc %d", tok, l))
+			verdict(tok, "trunc", l)
+		}
+		for _, x := range []int{0, 1, 15, 63} {
+			g.op(fmt.Sprintf("garble %s extend %d", tok, x))
+			verdict(tok, "extend", x)
+		}
+		g.op("drop " + tok)
+		verdict(tok, "drop", 0)
+	}
+	// blob-for-blob substitutions, also across the two stores
+	after := func(kind, a, b string) {
+		out := g.restart("wipe", false)
+		g.r.Hit("tamper:" + kind + ":restart-" + out)
+		g.op("dump")
+		for i, ref := range g.e.labels {
+			g.op(fmt.Sprintf("fetch @%d", i+1))
+			g.checkFetch(g.e.w, "tamper-"+kind, ref, false)
+		}
+		// without a restart the live index still points at the right names
+		g.op("restore")
+		g.r.Distinct("tamper:" + kind + ":" + a + ":" + b)
+	}
+	for _, a := range toks {
+		for _, b := range toks {
+			if a == b {
+				continue
+			}
+			g.op("copy " + a + " " + b)
+			after("copy", a, b)
+			if a < b {
+				g.op("swap " + a + " " + b)
+				after("swap", a, b)
+			}
+		}
+	}
+	g.restart("wipe", false)
+	g.tampered = false
+	g.op("dump")
+	g.fetchAll("live")
+	// live index (no restart): a substituted ciphertext is refused by the digest check
+	g.tampered = true
+	for _, a := range []string{"E1", "E2", "E3"} {
+		for _, b := range toks {
+			if a == b {
+				continue
+			}
+			g.op("copy " + a + " " + b)
+			for i, ref := range g.e.labels {
+				g.op(fmt.Sprintf("fetch @%d", i+1))
+				g.checkFetch(g.e.w, "tamper-copy-live", ref, false)
+			}
+			g.op("restore")
+		}
+	}
+}
+
+// malformed op lines: both sides must refuse them the same way
+func (g *gen) malformed() {
+	g.begin("malformed")
+	g.recv("recv", []byte("some blob content"))
+	for _, l := range []string{
+		"recv", "recv zz", "recv E9", "recv @7", "recvas @1", "fetch", "fetch @0", "fetch @2", "fetch 0G", "stat @1 @1",
+		"enum - x", "enum @5 1", "garble E1 flop 3", "garble E1 flip x", "garble E4 flip 3", "garble Q1 flip 3",
+		"copy E1", "copy E1 M9", "swap M0 E1", "drop", "drop E7", "plant X E1", "plant M E5", "restore",
+		"restart maybe M1", "restart wipe M2", "restart wipe -", "restart wipe M1,M1", "dump 1", "frobnicate", "calls x", "sum x", "snap x",
+	} {
+		g.op(l)
+	}
+	g.op("dump")
+	g.r.Distinct("malformed")
+}
+
+// Run is the generator.
+func Run(r *hk.Run) {
+	defer Cleanup()
+	g := &gen{r: r}
+	defer func() {
+		if g.e != nil {
+			g.e.close()
+		}
+	}()
+	r.Res.Rule = "distinct = (family, shape): small histories by op-kind sequence; every crash prefix of a call log; every (blob, tamper kind, position); every ordered pair of a substitution; every lookalike variant with its outcome; each compaction history by length"
+	g.lookalikes()
+	g.malformed()
+	if r.Thorough() {
+		g.tamperMatrix([]int{1, 0x80, 0}, 1)
+		g.smallHistories(60)
+		g.compaction(460, true, "compaction")
+		g.crashPrefixes(1, true)
+		g.compaction(230, false, "compaction-b")
+		g.crashPrefixes(3, false)
+		g.big(10350)
+	} else {
+		g.tamperMatrix([]int{1, 0x80}, 1)
+		g.smallHistories(12)
+		g.compaction(230, true, "compaction")
+		g.crashPrefixes(1, true)
+	}
+	r.Note("secrecy proper (that `0x02 || age(...)` reveals nothing about the plaintext) and the integrity of age/X25519/ChaCha20-Poly1305 are assumed, not checked; the oracle searches the stored bytes and names for plaintext material and tries every listed modification")
+}
+
+// big: enough receives to cross FullMetaBlobSize lines in one meta blob (thorough only)
+func (g *gen) big(n int) {
+	g.begin("big")
+	for i := 1; i <= n; i++ {
+		g.recv("recv", g.freshData(12))
+		calls := g.op("calls")
+		if strings.Contains(calls, "M-") {
+			g.r.Hit("compaction:during-receive")
+			g.op("sum")
+			g.leakScan()
+		}
+		if i%1000 == 0 {
+			g.pointCheck(true)
+		}
+	}
+	g.op("sum")
+	g.restart("wipe", true)
+	g.op("calls")
+	g.op("sum")
+	g.pointCheck(true)
+	for i := 0; i < 50; i++ {
+		j := g.r.R.Intn(len(g.e.labels))
+		g.op(fmt.Sprintf("fetch @%d", j+1))
+		g.checkFetch(g.e.w, "live", g.e.labels[j], true)
+	}
+	g.r.Distinct(fmt.Sprintf("big:%d", n))
 }
